@@ -50,7 +50,8 @@ def gen_case(rng):
             keys.add(rng.randrange(n))          # position after re-indexing
         else:
             keys.add(9999)                      # absent index
-    desc["rate_modifier"] = {k: rng.choice(VALUES) for k in sorted(keys)}
+    # values as the API accepts them: C expressions as strings, or plain numbers (0.0 switches a reaction off)
+    desc["rate_modifier"] = {k: rng.choice(VALUES + [0.0, 0, 2.5e-10]) for k in sorted(keys)}
     if rng.random() < 0.5:
         sp = sorted({s for r, p in desc["reactions"] for s in r + p if s not in ("CR", "PHOTON", "CRPHOT", "CRP")})
         tgt = rng.choice(sp)
@@ -92,7 +93,7 @@ def check_api(res, model, desc, rng, tag):
     for pos, (s1, s0) in enumerate(zip(a.ode.rateeqns, b.ode.rateeqns)):
         key = idxs[pos]
         if key in rmod:
-            want = f"k[{pos}] = {rmod[key]};"
+            want = f"k[{pos}] = {rmod[key]};"          # a number is printed by str()
             if " ".join(s1.split()) != " ".join(want.split()):
                 res.violation("oracle", f"reaction at position {pos} (index {key}) should be overwritten by {want!r} but is {s1!r}", case)
                 return
@@ -122,7 +123,7 @@ def check_api(res, model, desc, rng, tag):
         for r, st in zip(a.info.reactions, b.ode.rateeqns):
             g, sym, ix, expr = rl.parse_assign(st)
             srcs.append([rl.q(r.temp_min), rl.q(r.temp_max), expr])
-        rep = model.call("rates.assign", srcs, [[k, v] for k, v in rmod.items()], [i for i in idxs])
+        rep = model.call("rates.assign", srcs, [[k, str(v)] for k, v in rmod.items()], [i for i in idxs])
         mst, midx = rep
         # the API entry does not re-index; when every index is -1 the model's render_indices does
         if all(i == -1 for i in idxs):
@@ -169,7 +170,7 @@ def check_render(res, model, desc, tag):
             key = want_idx[pos]
             if key in rmod:
                 g, sym, ix, expr = rl.parse_assign(s1)
-                if g != ("none",) or ix != pos or " ".join(expr.split()) != " ".join(rmod[key].split()):
+                if g != ("none",) or ix != pos or " ".join(expr.split()) != " ".join(str(rmod[key]).split()):
                     res.violation("oracle", f"render: position {pos} (index {key}) should be 'k[{pos}] = {rmod[key]};' but is {s1!r}", case)
                     break
             elif " ".join(s1.split()) != " ".join(s0.split()):
@@ -221,7 +222,7 @@ def check_config(res, desc, tag):
                 # alpha/beta/gamma pass through the printed precision of the exchange format (C18); compare the
                 # modifier-targeted assignments exactly and the number/positions of all others
                 rmod = desc.get("rate_modifier") or {}
-                tgt = [i for i, s in enumerate(s1) if any(" ".join(v.split()) in s for v in rmod.values())]
+                tgt = [i for i, s in enumerate(s1) if any(s.endswith("= " + " ".join(str(v).split()) + ";") for v in rmod.values())]
                 if len(s1) != len(s2) or any(s1[i] != s2[i] for i in tgt):
                     res.violation("oracle", f"rate modifiers did not survive export -> render: {[s1[i] for i in tgt][:3]} vs {[s2[i] for i in tgt][:3]}", case)
             elif f.endswith("naunet_fex.cpp"):
@@ -284,6 +285,13 @@ def run(res, info):
                 d2["rate_modifier"] = {next(iter(v for v in d2["idx"].values())): "1.0e-10"} if d2["mode"] != "unindexed" else {0: "1.0e-10"}
             check_config(res, d2, i)
             check_init(res, rng, i)
+    # a reaction switched off by the number 0.0 (as the bundled ism example does), through every entry
+    fixed = {"reactions": [(["H", "H"], ["H2"]), (["C", "O"], ["CO"]), (["CO", "H"], ["C", "OH"]), (["H2", "O"], ["OH", "H"])],
+             "required": [], "idx": {0: 10, 1: 11, 2: 12, 3: 13}, "tmin": {}, "tmax": {}, "mode": "indexed",
+             "rate_modifier": {12: 0.0, 13: "1.0e-12 * sqrt(Tgas)", 10: 0}}
+    check_api(res, model, fixed, rng, "fixed-zero")
+    check_render(res, model, fixed, "fixed-zero")
+    check_config(res, fixed, "fixed-zero")
     if model:
         model.close()
 
